@@ -24,6 +24,17 @@ LEAN_TARGETS = ["PV.C08.Thm"]
 DRIVER = "drv_c08"
 HARNESS = {"bin": "pvh_c08", "features": "default"}
 THEOREMS = [
+    "PV.C08.lex_layout_invariant",
+    "PV.C08.lex_layout_invariant_runs",
+    "PV.C08.rule_eol_thm",
+    "PV.C08.rule_blanks_thm",
+    "PV.C08.rule_commentAfter_thm",
+    "PV.C08.rule_backslashJoin_thm",
+    "PV.C08.rule_bracketBreak_thm",
+    "PV.C08.rule_blankLine_thm",
+    "PV.C08.rule_formFeed_thm",
+    "PV.C08.nextChar_folds",
+    "PV.C08.lexCore_regular_thm",
 ]
 TRUSTED = [
     "Lean 4.33.0 kernel; axioms limited to propext, Classical.choice, Quot.sound",
@@ -33,14 +44,34 @@ TRUSTED = [
     "the LALRPOP automaton and its actions are not modelled: that equal range-erased token streams give equal range-erased "
     "trees is checked by the differential on the real parser, not proved",
 ]
-PARTIAL = []
+PARTIAL = [
+    "from equal range-erased token streams to equal range-erased trees: the LALRPOP automaton and its actions are not "
+    "modelled; checked by the differential on the real parser only",
+    "place-dependent rules of LayoutEq (blank/comment lines, form feed, blanks, comment after code, backslash join, bracket "
+    "break) are proved in suffix form unconditionally (rule_*_thm); the whole-text theorem assumes, per rule instance, that "
+    "the lexer reaches the place in the same state after the same tokens in BOTH texts (Spec.At for a and for b): that the "
+    "inserted layout text does not change how the token in front of it was delimited (look-ahead of the previous step) is "
+    "not proved in general; line ends (eol) and BOM are unconditional",
+    "consistent re-indentation (other width, tabs) is not formalised in Lean (needs a simulation between different "
+    "indentation stacks); differential only",
+    "redundant parentheses (paren_invariant) are not a lexer matter and are not proved; differential only",
+    "default build only (cfg.fullLexer = false); Unicode tables are parameters constrained by UpOk",
+]
 RULE = ("request = one original program with its layout variants (layout) or one (original, variant) pair (lexpair); "
         "distinct = distinct request line; every request is non-trivial (variant text differs from the original)")
-READY = False
+READY = True
 TECHNIQUE = ("Lean 4 theorem over the lexer model (layout-equivalent texts have equal range-erased token streams) + "
              "differential of the real parser on CPython-validated layout variants")
-LEVEL_TEXT = ""
-LEVEL_NOTE = ""
+LEVEL_TEXT = ("Machine-checked Lean 4 theorems about the lexer model, for texts of every length: texts related by the layout "
+              "rules (LF/CRLF/CR anywhere incl. strings, BOM, blank and comment-only lines, form feeds, blanks and comments after "
+              "code, backslash joins, line breaks inside brackets, and their compositions) lex to the same tokens and the same "
+              "kind of end once ranges are erased; the line-end rule is proved globally by walking every function of the model. "
+              "The model is tied to the real lexer on (original, variant) pairs on every run, and the real PARSER is judged "
+              "directly: every CPython-validated layout variant (incl. re-indentation and redundant parentheses) of generated "
+              "programs and of the CPython standard library must give the same acceptance and the same range-erased tree.")
+LEVEL_NOTE = ("Not proved: token stream -> tree (LALRPOP automaton not modelled), re-indentation, parentheses, and the "
+              "look-ahead independence of the text in front of an insertion (assumed per instance via Spec.At). Trusted: Lean "
+              "kernel, CPython 3.11.7 as judge of layout-only, the rewriter/generator/harness.")
 
 LEX_MODEL_READY = True       # set when drv_c08 answers `lexpair` from lean/PV/Lexer
 
@@ -72,9 +103,16 @@ def oracle(req, out):
     if ws[0] == "lexpair":
         if not out.startswith("eq="):
             return "unparsable answer"
-        if not out.startswith("eq=1"):
-            return "layout variant changes the range-erased token stream"
-        return None
+        if out.startswith("eq=1"):
+            return None
+        try:
+            a, b = out.split(" a=", 1)[1].split(" b=", 1)
+        except (IndexError, ValueError):
+            return "unparsable answer"
+        ea, eb = a.endswith("ERR") or a.startswith("("), b.endswith("ERR") or b.startswith("(")
+        if ea and eb:
+            return None         # both texts are rejected by the lexer: acceptance is the same, there is no tree
+        return "layout variant changes the range-erased token stream"
     return None
 
 
